@@ -25,6 +25,7 @@ THEOREMS = {
     "C06": ["incremental_eq_batch", "spec_chunked", "rowsOf_append", "fitRec_append", "first_partial_is_fit", "neighbors_history",
             "post_eq_mapKV", "rec_stats_append", "rec_append_post", "fit_closed", "partialFit_closed", "fit_partialFit_append",
             "chunked_eq_batch_full", "incremental_eq_batch_full",
+            "accepted_partial", "accepted_fit", "partialCalls_trace", "facade_incremental_eq_batch",
             "npBinarize_append", "radius_incremental_eq_batch", "knn_incremental_eq_batch", "radius_chunked_eq_batch",
             "knn_chunked_eq_batch", "lshInv_fit_any", "lshInv_partialFit_any", "lshSame_buckets", "lshSame_selectIdx",
             "lshSame_nhoodRow", "lshSame_impPredict", "lsh_incremental_eq_batch", "lsh_incremental_queries", "lsh_chunked_eq_batch",
@@ -96,7 +97,7 @@ IMPORTS = {
     "C03": ["MabModel.Props.C03"],
     "C04": ["MabModel.Props.C04"],
     "C05": ["MabModel.Props.C05", "MabModel.Props.C05b", "MabModel.Props.C05c", "MabModel.Props.C05d"],
-    "C06": ["MabModel.Props.C06", "MabModel.Props.C06b", "MabModel.Props.C06c"],
+    "C06": ["MabModel.Props.C06", "MabModel.Props.C06b", "MabModel.Props.C06c", "MabModel.Props.C06d"],
     "C07": ["MabModel.Props.C07", "MabModel.Props.C05c", "MabModel.Props.C07b", "MabModel.Props.FacadeLift"],
     "C08": ["MabModel.Props.C08", "MabModel.Props.C08b", "MabModel.Props.C08c"],
     "C09": ["MabModel.Props.C09", "MabModel.Props.C09b"],
